@@ -232,11 +232,36 @@ var f64Classes = []uint64{
 	0x3fb999999999999a, 0x3fd3333333333333, 0x44b52d02c7e14af6, 0x4415af1d78b58c40, 0x444b1ae4d6e2ef50, // 0.1 0.3 1e23 1e20 1e21
 	0x3eb0c6f7a0b5ed8d, 0x3e7ad7f29abcaf48, // 1e-6 1e-7
 	0x7ff0000000000000, 0xfff0000000000000, 0x7ff8000000000000, 0x7ff0000000000001, 0xfff8000000000000, 0x7fffffffffffffff,
+	0x43e0000000000000, 0xc3e0000000000000, 0x43dfffffffffffff, 0x43e0000000000001, // +-2^63 (= float64(MaxInt64)) and neighbours
+	0x43e07ad8f556c6c0, 0xc3e07ad8f556c6c0, 0x43e158e460913d00, 0x43e158e460913cff, // +-9.5e18, 1e19 and its predecessor
+}
+
+// integral doubles around the limits of the integer types: 2^k and 2^k +- ulp for k = 50..70, 10^k and its neighbours for
+// k = 15..22, either sign (a formatter that routes integral values through an integer conversion breaks in [2^63, 1e19))
+func integralF64(r *rng) uint64 {
+	var b uint64
+	if r.bool() {
+		k := 50 + r.intn(21)
+		b = uint64(1023+k) << 52
+	} else {
+		b = math.Float64bits(math.Pow10(15 + r.intn(8)))
+	}
+	switch r.intn(4) {
+	case 0:
+		b--
+	case 1:
+		b++
+	case 2:
+		b += uint64(r.intn(1 << 12)) // a few more integral values of the same binade (k >= 52) / near it
+	}
+	return b | uint64(r.intn(2))<<63
 }
 
 func (g *gen03) genF64() uint64 {
 	r := g.r
-	switch r.intn(10) {
+	switch r.intn(12) {
+	case 10, 11:
+		return integralF64(r)
 	case 0, 1:
 		return f64Classes[r.intn(len(f64Classes))]
 	case 2:
